@@ -281,6 +281,89 @@ def fn_history(items):
     return {'n': n, 'nt': nt, 'viol': viol}
 
 
+def fn_compiled_maps(items):
+    """item = [tag, N, [letter indices]]: the maps a compile() builds by compose/inverse: for every program the
+    circuit-level forward_map must equal the reference composition of the gate automorphisms, backward_map must be
+    its two-sided inverse (inverse of a composition = reversed composition of the inverses), the same per layer,
+    and gate.compile() of every gate must yield mutually inverse maps."""
+    from .. import circ
+    n = nt = 0
+    viol = []
+    for tag, N, prog in items:
+        pk = circ.PKS[tag]
+        A = circ.alphabet(tag, N)
+        letters = [A[int(i)] for i in prog]
+        item = [tag, N, list(prog)]
+        fw = circ.ident(N)
+        for l in letters:
+            fw = l.perm[fw]
+        et, es = circ.table_of_perm(fw, N)
+        for cls in pk.classes:
+            try:
+                c, gates = circ.build(pk, cls, N, letters)
+                pk.compile(c, N)
+            except Exception as e:
+                viol.append(V('C04/compiled-maps/%s/raises-%s' % (tag, type(e).__name__), item, 'compile of %s raised %s: %s' % ([l.name for l in letters], type(e).__name__, e)))
+                continue
+            # lazily derived maps: a fresh gate run forward (resp. backward) first must keep the maps it was given
+            # and may only add the exact inverse of its partner (inversion leaves its operand unchanged)
+            for first in ('forward', 'backward'):
+                for k, l in enumerate(letters):
+                    g = l.mk(pk)
+                    before = {}
+                    for att in ('forward_map', 'backward_map'):
+                        mp = getattr(g, att, None)
+                        if mp is not None:
+                            a_, b_ = pk.arr(mp)
+                            before[att] = (np.rint(a_).astype(np.int64).copy(), np.rint(b_).astype(np.int64).copy() % 4)
+                    if getattr(g, 'generator', None) is not None or not before:
+                        continue
+                    try:
+                        obj = pk.fresh(pk.inputs(N)[0])
+                        (g.forward if first == 'forward' else g.backward)(obj)
+                        (g.backward if first == 'forward' else g.forward)(obj)
+                    except Exception:
+                        continue
+                    n += 1
+                    after = {}
+                    for att in ('forward_map', 'backward_map'):
+                        mp = getattr(g, att, None)
+                        if mp is not None:
+                            a_, b_ = pk.arr(mp)
+                            after[att] = (np.rint(a_).astype(np.int64), np.rint(b_).astype(np.int64) % 4)
+                    for att, (a0, b0) in before.items():
+                        if att not in after or (after[att][0] != a0).any() or (after[att][1] != b0).any():
+                            viol.append(V('C04/lazy-inverse/%s/given-map-changed/%s-first' % (tag, first), item, 'gate %s: its %s was changed by running the gate (%s first)' % (l.name, att, first)))
+                    if len(after) == 2:
+                        fg, fp = after['forward_map']
+                        bg, bp = after['backward_map']
+                        I = np.eye(fg.shape[0], dtype=np.int64)
+                        g1, p1 = ref.map_apply(bg, bp, fg, fp)
+                        if (g1 != I).any() or p1.any():
+                            viol.append(V('C04/lazy-inverse/%s/maps-not-inverse/%s-first' % (tag, first), item, 'gate %s: after running it (%s first) forward_map and backward_map are not inverse to each other' % (l.name, first)))
+            objs = [('circuit', c)] + [('layer%d' % k, lay) for k, lay in enumerate(itertools.islice(c.layers_forward(), 8))] + [('gate%d' % k, g) for k, g in enumerate(gates)]
+            for nm, o in objs:
+                if getattr(o, 'forward_map', None) is None or getattr(o, 'backward_map', None) is None:
+                    continue
+                fg, fp = pk.arr(o.forward_map)
+                bg, bp = pk.arr(o.backward_map)
+                fg, fp, bg, bp = np.rint(fg).astype(np.int64), np.rint(fp).astype(np.int64) % 4, np.rint(bg).astype(np.int64), np.rint(bp).astype(np.int64) % 4
+                n += 1
+                nt += int(len(letters) >= 2)
+                I = np.eye(fg.shape[0], dtype=np.int64)
+                ok = ref.is_valid_map(fg, fp) and ref.is_valid_map(bg, bp)
+                if ok:
+                    g1, p1 = ref.map_apply(bg, bp, fg, fp)
+                    g2, p2 = ref.map_apply(fg, fp, bg, bp)
+                    ok = (g1 == I).all() and (g2 == I).all() and not p1.any() and not p2.any()
+                if not ok:
+                    viol.append(V('C04/compiled-maps/%s/%s/backward-not-inverse-of-forward' % (tag, nm.rstrip('0123456789')), item,
+                                  'program %s, %s of %s: compiled backward_map is not the two-sided inverse of forward_map' % ([l.name for l in letters], nm, cls)))
+                elif nm == 'circuit' and ((fg != et).any() or (fp != es % 4).any()):
+                    viol.append(V('C04/compiled-maps/%s/circuit/forward-not-composition' % tag, item, 'program %s: compiled forward_map of %s is not the composition of the gate maps in order' % ([l.name for l in letters], cls)))
+    return {'n': n, 'nt': nt, 'viol': viol}
+
+
 def fn_closure(items):
     """item = [N]: BFS closure of {identity} under the LIBRARY's compose with the generator maps
     must be exactly the independently enumerated valid-map set (both inclusions)."""
@@ -393,6 +476,15 @@ def legs(tier):
                        bound='N=2: ALL 11520^2 = 132 710 400 ordered pairs', timeout=7200))
         z6 = [[3, lo, lo + 32, 'py'] for lo in range(0, 512, 32)]
         out.append(Leg('z2inv_3x3', fn_z2inv, z6, chunk=4, bound='all 512 3x3 binary matrices'))
+    from .. import circ as _circ
+    _circ.warmup('py')
+    cm = [['py', N, it[1]] for N in (2, 3) for it in _circ.programs('py', N, 3 if N == 2 else 2) if len(it[1]) >= 1]
+    out.append(Leg('compiled_maps', fn_compiled_maps, cm, chunk=32,
+                   bound='maps built by compile() (compose/inverse in use): all programs of <=3 gates (N=2) / <=2 gates (N=3) over the C09 alphabets: circuit, layer and gate level forward/backward maps mutually inverse, circuit forward map = reference composition'))
+    _circ.warmup('torch')
+    cmt = [['torch', N, it[1]] for N in (2, 3) for it in _circ.programs('torch', N, 2) if len(it[1]) >= 1] + [['torch', 2, list(w)] for w in itertools.product(range(4), repeat=3)]
+    out.append(Leg('compiled_maps_torch', fn_compiled_maps, cmt, chunk=4,
+                   bound='torchclifford: the same for all programs of <=2 gates (N=2,3) and 64 three-gate programs'))
     out.append(Leg('torch_N1', fn_n1, [['torch', i] for i in range(24)], chunk=2, bound='torchclifford N=1: all pairs, inverse'))
     tstep = 16 if tier == 'quick' else 2
     out.append(Leg('torch_N2', fn_n2, [['torch', lo, lo + 1] for lo in range(0, 11520, tstep)], chunk=4,
